@@ -345,6 +345,14 @@ TypeOfCond(x, y, targ) ==
        ELSE Err
   ELSE Err
 
+(* Controlling expressions of `?:` used by the generators.  The TYPE of a conditional expression never depends on  *)
+(* its first operand (6.5.15p5,6), but an implementation that folds a constant condition at parse time (cproc)    *)
+(* takes a different path for each of: a non-constant object ("x"), integer constants zero / non-zero, floating   *)
+(* constants zero / non-zero, a 64-bit constant whose low 32 bits are zero, a sizeof expression.                   *)
+CondControls == <<"x", "1", "0", "8", "1.5", "0.0", "0x100000000", "(sizeof(int))">>
+CondSelectsFirst(cv) == cv \in {"1", "8", "1.5", "0x100000000", "(sizeof(int))"}      \* meaningful for constant controls only
+CondIsConstant(cv) == cv # "x"
+
 (* 6.5.3 unary operators and 6.5.2.4 / 6.5.4 / 6.5.16 / 6.5.17 forms whose type depends on one operand *)
 UnaryOps == {"+", "-", "~", "!", "sizeof", "_Alignof", "&", "*", "++pre", "--pre", "post++", "post--"}
 TypeOfUnary(op, x, targ) ==
